@@ -338,7 +338,7 @@ Lemma scalar_sem env t w v :
   item_ok (defined_numbers env) w v = ty_ok re_match env t v.
 Proof.
   intros Hwf Hw Hty. unfold item_ok.
-  destruct t as [k r l|r l|r|r l|r l|f e l|f64 l|r l|r l|l|l|fl|l]; cbn [write_field] in Hw.
+  destruct t as [k r l|sf r l|r|r l|r l|f e l|f64 l|r l|r l|l|od ts l|fl|l]; cbn [write_field] in Hw.
   - (* integer *)
     apply obind_ok in Hw as [vo [Hv Hw]]. inversion Hw; subst w; clear Hw. cbn [fw_val].
     destruct v; try discriminate. destruct r as [r|].
@@ -396,7 +396,7 @@ Lemma write_field_primary env t w :
   match fw_key w with Some k => kx_primary k | None => false end = is_primary (PSingle t).
 Proof.
   intro Hw.
-  destruct t as [k r l|r l|r|r l|r l|f e l|f64 l|r l|r l|l|l|fl|l]; cbn [write_field] in Hw;
+  destruct t as [k r l|sf r l|r|r l|r l|f e l|f64 l|r l|r l|l|od ts l|fl|l]; cbn [write_field] in Hw;
     try (apply obind_ok in Hw as [x [Hx Hw]]);
     inversion Hw; subst w; cbn [fw_key is_primary]; try reflexivity.
   destruct e as [[ty tn]|]; [|reflexivity]. cbn. destruct ty as [[[|]|]|]; reflexivity.
@@ -406,7 +406,7 @@ Lemma write_field_msg env t w :
   write_field env t = Ok w -> is_msg_kind (fw_kind w) = is_msg_ty t.
 Proof.
   intro Hw.
-  destruct t as [k r l|r l|r|r l|r l|f e l|f64 l|r l|r l|l|l|fl|l]; cbn [write_field] in Hw;
+  destruct t as [k r l|sf r l|r|r l|r l|f e l|f64 l|r l|r l|l|od ts l|fl|l]; cbn [write_field] in Hw;
     try (apply obind_ok in Hw as [x [Hx Hw]]);
     inversion Hw; subst w; cbn [fw_kind is_msg_ty]; try reflexivity.
   - destruct k; reflexivity.
@@ -418,7 +418,7 @@ Lemma write_field_msg_noval env t w :
   write_field env t = Ok w -> is_msg_ty t = true -> fw_val w = None.
 Proof.
   intros Hw Hm.
-  destruct t as [k r l|r l|r|r l|r l|f e l|f64 l|r l|r l|l|l|fl|l]; try discriminate; cbn [write_field] in Hw;
+  destruct t as [k r l|sf r l|r|r l|r l|f e l|f64 l|r l|r l|l|od ts l|fl|l]; try discriminate; cbn [write_field] in Hw;
     inversion Hw; reflexivity.
 Qed.
 
@@ -433,7 +433,7 @@ Lemma write_field_noreq env t w c :
   write_field env t = Ok w -> fw_val w = Some c -> c_req c = false.
 Proof.
   intros Hwt. revert c.
-  destruct t as [k r l|r l|r|r l|r l|f e l|f64 l|r l|r l|l|l|fl|l]; cbn [write_field] in Hwt;
+  destruct t as [k r l|sf r l|r|r l|r l|f e l|f64 l|r l|r l|l|od ts l|fl|l]; cbn [write_field] in Hwt;
     try (apply obind_ok in Hwt as [x [Hx Hwt]]);
     try (destruct r; try discriminate);
     inversion Hwt; subst w; cbn [fw_val]; intros c Ev; try discriminate;
@@ -585,6 +585,29 @@ Proof.
       * destruct req; cbn [set_required c_req c_ty andb negb];
           destruct kvs as [|kv0 kvr]; cbn [negb andb];
           rewrite <- ?Hitems; cbn [forallb]; rewrite ?forallb_true; reflexivity.
+Qed.
+
+(* lifted to messages *)
+Fixpoint typed_obj (ds : list prop) (fvs : list fvalue) : bool :=
+  match ds, fvs with
+  | [], [] => true
+  | d :: r, v :: s => fvalue_typed d v && typed_obj r s
+  | _, _ => false
+  end.
+
+Theorem c12_object env ds : forall idx os fvs,
+  wf_env env = true ->
+  write_props_from env idx ds = Ok os ->
+  typed_obj ds fvs = true ->
+  validate_obj re_match (defined_numbers env) os fvs = rule_obj re_match env ds fvs.
+Proof.
+  induction ds as [|d r IH]; intros idx os fvs Hwf Hw Hty; cbn in Hw.
+  - inversion Hw; subst. destruct fvs; [reflexivity|discriminate].
+  - apply obind_ok in Hw as [o [Ho Hw]]. apply obind_ok in Hw as [os' [Hos Hw]].
+    inversion Hw; subst os. destruct fvs as [|v s]; [discriminate|].
+    cbn [typed_obj] in Hty. apply andb_true_iff in Hty as [Hv Hs].
+    cbn [validate_obj rule_obj].
+    rewrite (c12_main env idx d o v Hwf Ho Hv). rewrite (IH (idx + 1)%N os' s Hwf Hos Hs). reflexivity.
 Qed.
 
 End C12.
